@@ -1,4 +1,4 @@
-From SV Require Import Model.Common Model.System Model.SystemAccept Model.RecoveryOrder Model.SystemOrderCase.
+From SV Require Import Model.Common Model.System Model.SystemAccept Model.RecoveryOrder Model.FeederLoad Model.SystemOrderCase.
 From Coq Require Import ExtrOcamlBasic.
 Definition run_line_model := run_line run_case_C05.
 Extraction "model.ml" run_line_model.
